@@ -499,3 +499,14 @@ package protocol
 //@   ensures err == nil ==> d.Data.(*IPv6).HbhHeader != nil && d.Data.(*IPv6).HbhHeader.NextHeader == 43 && d.Data.(*IPv6).HbhHeader.HEL == hel && len(d.Data.(*IPv6).HbhHeader.Options) == 1
 //@   ensures err == nil ==> udpeq(d.Data.(*IPv6).Data.(*UDP), u)
 //@   ensures err == nil ==> len(b2) == len(b1) && bytes_eq(b2, 0, b1, 0, len(b1))
+
+//@ func lemmaEthIPv6FR(e, ip, r, f, u) (d, err, b1, b2) [C09]
+//@   inlinecalls
+//@   modreach
+//@   unroll 4
+//@   modifies e.Data, ip.Data, ip.HbhHeader, ip.RoutingHeader, ip.FragmentHeader
+//@   requires e != nil && ip != nil && wf(u) && wf(r) && wf(f) && ethwf(e) && e.Ethertype == 34525 && ip6base(ip) && ip.NextHeader == 44 && f.NextHeader == 43 && r.NextHeader == 17 && 14 + 4 + 40 + 2048 + 8 + 8 + len(u.Data) <= 65535
+//@   ensures err == nil && d != nil && typeis(d.Data, *IPv6) && typeis(d.Data.(*IPv6).Data, *UDP)
+//@   ensures err == nil ==> etheq(d, e) && ip6eq(d.Data.(*IPv6), ip) && d.Data.(*IPv6).HbhHeader == nil && rheq(d.Data.(*IPv6).RoutingHeader, r) && fheq(d.Data.(*IPv6).FragmentHeader, f)
+//@   ensures err == nil ==> udpeq(d.Data.(*IPv6).Data.(*UDP), u)
+//@   ensures err == nil ==> len(b2) == len(b1) && bytes_eq(b2, 0, b1, 0, len(b1))
